@@ -579,6 +579,22 @@ def subst_tokens(toks, pat, rep, log, rule='S'):
                     break
                 if meta.match(pt):
                     stop = ptoks[pi + 1]
+                    # the run of fixed pattern tokens that follows the metavariable: a candidate end is taken only if the WHOLE run matches there
+                    # (`payload.slice(__E1..)` binds `i.saturating_add(offset)`, not `i`)
+                    run = []
+                    for pt2 in ptoks[pi + 1:]:
+                        if meta.match(pt2):
+                            break
+                        run.append(pt2)
+
+                    def _run_matches(at):
+                        q_ = at
+                        for n_, rt in enumerate(run):
+                            if n_ > 0:
+                                q_ = _next_sig(toks, q_)
+                            if q_ is None or q_ >= n or toks[q_].text != rt:
+                                return False
+                        return True
                     depth = 0
                     start = j
                     e = j
@@ -586,7 +602,7 @@ def subst_tokens(toks, pat, rep, log, rule='S'):
                     while e < n:
                         te = toks[e]
                         if te.kind not in ('ws', 'comment'):
-                            if depth == 0 and te.text == stop and e > start:
+                            if depth == 0 and te.text == stop and e > start and _run_matches(e):
                                 found = True
                                 break
                             if te.text in OPEN:
